@@ -1,6 +1,6 @@
 """C15 — the generated OpenAPI document is valid and describes exactly the application.
 
-impl  : harness C15 — applications assembled at run time from a catalogue of 26 typed handlers (fn items of every IntoHandler shape: no / one / 1-tuple / 2-tuple path params x 0-4 extractors, Query / JSON / URLEncoded / Multipart
+impl  : harness C15 — applications assembled at run time from a catalogue of 28 typed handlers (fn items of every IntoHandler shape: no / one / 1-tuple / 2-tuple path params x 0-4 extractors, Query / JSON / URLEncoded / Multipart
         extractors over derived schemas, typed status / JSON / text / Result / Response returns) under plain / JWT / BasicAuth / openapi::Tag fangs at any level,
         nested mounts with param prefixes; the real `__openapi_document_bytes__`; and, for every documented operation, a request built from it (params, query, body of
         the documented media type, documented credentials) through the real router: which handler ran
@@ -15,7 +15,7 @@ from . import appgen
 
 ID = 'C15'
 GEN_DEPS = []
-RULE = ('application trees: 1-6 routes per application (static / param segments, root route), 1-5 methods per route each with any of the 26 catalogue handlers (every IntoHandler shape) that fits the '
+RULE = ('application trees: 1-6 routes per application (static / param segments, root route), 1-5 methods per route each with any of the 28 catalogue handlers (every IntoHandler shape) that fits the '
         'number of captured params, 0-3 fangs per application and 0-2 per route drawn from plain / jwt / basic / tag, mounts up to depth 2 with static and param prefixes, in 30 % of mounts one route of the mounted application is registered by the parent too under other methods; '
         'non-trivial = a mount with a param prefix, or an authentication fang, or a handler with extractors')
 ASSUMPTIONS = ['param names are distinct along one path and non-empty, and one param position of one route pattern carries one name (OpenAPI treats /u/{id} and /u/{uid} as the same path); route literals hold no "{" "}" (hypothesis `clean` of template_inj)',
@@ -48,7 +48,10 @@ SIGS.update({13: dict(path=[], query=_QA, body=_J, responses=[200]),
              22: dict(path=['integer', 'string'], query=[], body=_J, responses=[201]),
              23: dict(path=['string', 'string'], query=_QD, body=_J, responses=[200]),
              24: dict(path=['integer', 'integer'], query=_QD + _QE, body=_J, responses=[200]),
-             25: dict(path=['string', 'integer'], query=_QB + _QD + _QE, body=_J, responses=[200, 404, 500])})
+             25: dict(path=['string', 'integer'], query=_QB + _QD + _QE, body=_J, responses=[200, 404, 500]),
+             # Option<Query<T>>: the fields of T keep their own required flags (Query never answers None)
+             26: dict(path=[], query=_QE, body=None, responses=[200]),
+             27: dict(path=['integer'], query=_QD, body=_J, responses=[200])})
 SIGS_J = {str(k): v for k, v in SIGS.items()}
 KINDS = ['plain', 'jwt', 'basic', 'tag']
 AUTH = {'jwt': 'jwtAuth', 'basic': 'basicAuth', 'basic2': 'basicAuth', 'key_header': 'keyHeader', 'key_query': 'keyQuery', 'key_cookie': 'keyCookie'}
